@@ -12,7 +12,8 @@
 (*       state stays Initial, what was done before the failing effect stays *)
 (*       done (a rename that succeeded, a file that was created)            *)
 (*   mount_next_linewriter_if_necessary: rename `?` / open `?` before the   *)
-(*       writer is switched: the old writer (and its buffer) stays, the     *)
+(*       writer is switched: the old writer stays (its buffer was flushed   *)
+(*       at the begin of the rotation), the                                 *)
 (*       naming state keeps what was assigned before the failing effect     *)
 (*       (NumbersDirect: idx+1, Timestamps: the new timestamp)              *)
 (* Scope: no cleanup, no symlink (their effects are not modelled here).     *)
@@ -72,7 +73,11 @@ InitializeF(c, d, f, t, FL) ==
 (* mount_next_linewriter_if_necessary: returns [ok, d, f, w, used, fx];     *)
 (* j0 = effects already used by this action                                 *)
 (***************************************************************************)
-RotateF(c, d, f0, wr, t, FL, j0) ==
+RotateF(c, d, fa, wa, t, FL, j0) ==
+    \* the buffer of the writer is flushed first (the renamed file is a rotated file for a concurrently running
+    \* cleanup thread before the writer is replaced), so on every path below the old writer's buffer is empty
+    LET f0 == FlushInto(fa, wa)
+        wr == [wa EXCEPT !.buf = <<>>] IN
     CASE c.naming = "Num" ->
            IF Fl(FL, j0 + 1) THEN [ok |-> FALSE, d |-> d, f |-> f0, w |-> wr, used |-> j0 + 1, fx |-> <<"fs:rename">>]
            ELSE LET rn == Rename(d, Cur, Num(wr.idx))
